@@ -166,7 +166,7 @@ def evaluate(contract, clause, bindings, universe=None, spec_from=None):
     return eval(_compile(clause), env)
 
 
-def check_call(contract, fn, args, kwargs=None, argnames=None, universe=None, check_pre=True, self_obj=None):
+def check_call(contract, fn, args, kwargs=None, argnames=None, universe=None, check_pre=True, self_obj=None, ghost=None):
     """Run fn(*args, **kwargs) under the contract.  Returns the result.
     Raises ContractViolation('pre'|'post'|'raises', clause)."""
     kwargs = dict(kwargs or {})
@@ -182,7 +182,8 @@ def check_call(contract, fn, args, kwargs=None, argnames=None, universe=None, ch
         if n not in bindings:
             bindings[n] = eval(d)
     for gname, (gtype, gexpr) in contract.ghost.items():
-        bindings[gname] = evaluate(contract, gexpr, dict(bindings), universe)
+        # a ghost value is either defined by an expression or supplied with the case (harness-provided witness)
+        bindings[gname] = ghost[gname] if ghost and gname in ghost else evaluate(contract, gexpr, dict(bindings), universe)
     if check_pre:
         for pre in contract.requires:
             if not evaluate(contract, pre, bindings, universe):
